@@ -4,6 +4,7 @@
 -/
 import YashModel.Common.Proto
 import YashModel.Job.Model
+import YashModel.Job.Builtins
 import YashModel.Job.Spec
 open YashModel YashModel.Job YashModel.Proto
 
@@ -13,16 +14,38 @@ def parseState (t : String) : Option PState :=
   | 'S' :: r => (String.ofList r).toNat?.map .stopped
   | 'E' :: r => (String.ofList r).toNat?.map .exited
   | 'K' :: r => (String.ofList r).toNat?.map (fun n => .signaled n false)
+  | 'C' :: r => (String.ofList r).toNat?.map (fun n => .signaled n true)
   | _ => none
 
 def showState : PState → String
   | .running => "R"
   | .stopped n => s!"S{n}"
   | .exited n => s!"E{n}"
-  | .signaled n _ => s!"K{n}"
+  | .signaled n false => s!"K{n}"
+  | .signaled n true => s!"C{n}"
+
+/-- an argument token of a built-in: `''` is the empty string; long options are not modelled -/
+def parseArg (t : String) : Option Str :=
+  if t = "''" then some []
+  else if t.startsWith "--" ∧ t.length > 2 then none
+  else some t.toList
+
+def parseBool (t : String) : Option Bool :=
+  if t = "1" then some true else if t = "0" then some false else none
+
+def parseName (t : String) : Str := if t = "-" then [] else t.toList
 
 def parseOp (t : String) : Option Op :=
   match words t with
+  | ["job", p, st, jc, name] => do pure (.insertJob (← p.toNat?) (← parseState st) (← parseBool jc) (parseName name))
+  | "jobs" :: args => do pure (.jobs (← args.mapM parseArg))
+  | "bg" :: m :: args => do pure (.bg (← parseBool m) (← args.mapM parseArg))
+  | "fg" :: m :: out :: args => do
+    let o ← parseState out
+    if o = .running then none else pure (.fg (← parseBool m) o (← args.mapM parseArg))
+  | "wait" :: args => do pure (.wait (← args.mapM parseArg))
+  | ["wres", a] => do pure (.wres (← parseArg a))
+  | ["amp", p, m, i, name] => do pure (.amp (← p.toNat?) (← parseBool m) (← parseBool i) (parseName name))
   | ["ins", p, st] => do pure (.insert (← p.toNat?) (← parseState st))
   | ["upd", p, st] => do pure (.update (← p.toNat?) (← parseState st))
   | ["cur", i] => do pure (.setCurrent (← i.toNat?))
@@ -49,7 +72,7 @@ def showJobs (es : Slab) : String :=
     | none :: t => go t (i+1) acc
     | some j :: t =>
       let e := match j.expected with | some st => showState st | none => "-"
-      go t (i+1) (s!"{i}:{j.pid}:{showState j.state}:{bit j.changed}:{bit j.owned}:{e}" :: acc)
+      go t (i+1) (s!"{i}:{j.pid}:{showState j.state}:{bit j.changed}:{bit j.owned}:{e}:{bit j.jc}:{encChars j.name}" :: acc)
   ",".intercalate (go es 0 [])
 
 def showFind (r : Except FindErr Nat) : String :=
@@ -57,6 +80,10 @@ def showFind (r : Except FindErr Nat) : String :=
   | .ok i => toString i
   | .error .notFound => "nf"
   | .error .ambiguous => "amb"
+
+/-- `<exit status>:<hex of standard output>:<error classes>` -/
+def showOut (o : Out) : String :=
+  s!"{o.status}:{encChars o.stdout}:{if o.errs.isEmpty then "-" else "+".intercalate o.errs}"
 
 /-- result of the operation itself -/
 def opResult (s : JobList) : Op → String
@@ -67,18 +94,43 @@ def opResult (s : JobList) : Op → String
   | .remove i => optNat ((s.remove i).1.map (·.pid))
   | .removeIfDone r => ".".intercalate ((s.removeIf (fun _ j => !j.state.isAlive) r).1.map toString)
   | .removeIfChanged => ".".intercalate ((s.removeIf (fun _ j => j.changed && !j.state.isAlive) false).1.map toString)
+  | .insertJob pid st jc name => toString (s.insert { pid := pid, state := st, jc := jc, name := name }).1
+  | .jobs args => showOut (jobsBuiltin s args).1
+  | .bg m args => showOut (bgBuiltin s m args).1
+  | .fg m out args => showOut (fgBuiltin s m out args).1
+  | .wait args => showOut (waitBuiltin s args).1
+  | .wres arg =>
+    (match waitSpecOf arg with
+     | none => "bad"
+     | some sp => match waitResolve s sp with
+       | .ok (some i) => s!"some:{i}"
+       | .ok none => "none"
+       | .error _ => "amb")
+  | .amp pid m i name => showOut (ampersand s pid m i name).1
   | _ => "-"
+
+/-- the output of the built-in steps, for the documentation checks of `Spec.lean` -/
+def opOut (s : JobList) : Op → Out
+  | .jobs args => (jobsBuiltin s args).1
+  | .bg m args => (bgBuiltin s m args).1
+  | .fg m out args => (fgBuiltin s m out args).1
+  | .wait args => (waitBuiltin s args).1
+  | .amp pid m i name => (ampersand s pid m i name).1
+  | _ => { status := 0 }
 
 def pidsMentioned (ops : List Op) : List Nat :=
   let ps := ops.filterMap fun
     | .insert p _ => some p
     | .update p _ => some p
     | .setAsync p => some p
+    | .insertJob p _ _ _ => some p
+    | .amp p _ _ _ => some p
     | _ => none
   ps.eraseDups
 
 def observe (s : JobList) (r : String) (pids : List Nat) : String :=
-  let finds := [JobId.current, .previous, .number 1, .number 2, .number 3, .number 4, .number 5].map
+  let finds := [JobId.current, .previous, .number 1, .number 2, .number 3, .number 4, .number 5,
+                .prefix_ ['a'], .substring ['b']].map
     (fun id => showFind (id.find s))
   let px := pids.map (fun p => s!"{p}:{optNat (lookup s.pids p)}")
   s!"r={r} jobs={showJobs s.entries} len={s.len} cur={optNat s.currentJob} prev={optNat s.previousJob} async={s.lastAsync} find={",".intercalate finds} pidx={",".intercalate px}"
@@ -103,7 +155,9 @@ def runLine (line : String) : String :=
             if !pre' then none
             else if !invB s' then some s!"FAIL:inv@{k}"
             else if !stableB s s' then some s!"FAIL:index@{k}"
-            else none
+            else match docCheck s s' op (opOut s op) with
+              | some what => some s!"FAIL:{what}@{k}"
+              | none => none
         go s' rest (k+1) (observe s' r pids :: obs) v pre'
     let (obs, verdict, pre) := go JobList.empty ops 0 [] none true
     let spec := match verdict with
